@@ -123,6 +123,7 @@ PROPS["C04"] = {
     "lean_module": "RaftVerif.Props.C04",
     "theorems": [
         T("RP.log_matching", "cluster model: equal (index, term) in two logs => equal logs through that index, every execution", "partial"),
+        T("SV.replSetup_wellformed", "the leader's side, as stepped against the real replicateTo: every AppendEntries request the replication routine builds is a window of the leader's own log - previous entry = the origin, the snapshot boundary or the stored entry just before nextIndex, entries = the stored entries nextIndex, nextIndex+1, ... without a gap, at most MaxAppendEntries of them and none beyond lastIndex, in the leader's term with the leader's commit index"),
         T("SV.ae_refines_core", "the bridge between the two models for AppendEntries (core fragment: no snapshot, the store holds the entries 1..n, the cached last entry is the store's; request entries numbered from PrevLogEntry+1): the log the handler stepped against raft.go leaves behind is, entry for entry, the log the cluster model's RP.handleAE computes (take prev ++ mergeSuffix (drop prev) entries), and - unless the process dies while applying - it answers success exactly when RP.handleAE does"),
         T("SV.scan_is_merge", "the entry scan + DeleteRange from the reported conflict + StoreLogs of what the scan asks for is the list merge of the cluster model, for every log 1..n and every request numbered from p+1 (p <= n)"),
         T("SV.prevOk_core", "the previous-entry check of the stepped handler (cached last entry / store lookup) is the cluster model's check (length and term at that position)"),
@@ -237,6 +238,10 @@ PROPS["C12"] = {
     "lean_module": "RaftVerif.Props.C12",
     "theorems": [
         T("RP.catchup_terminates", "for every leader log, every follower log (shorter, longer, divergent, empty), every nextIndex and batch size: within nextIndex + |L| AppendEntries rounds the follower holds the leader's log"),
+        T("SV.afterAE_refusal_moves_down", "the stepped replication routine never repeats a refused request: a refusal moves nextIndex strictly down (never below 1, never above the follower's hint + 1) and the loop goes on"),
+        T("SV.afterAE_ack_moves_up", "an acknowledgement moves nextIndex just past the last entry sent and records exactly that entry as stored by the follower, never lowering what was recorded"),
+        T("SV.afterAE_newer_term_stops", "a newer term in an answer stops replication at once"),
+        T("SV.replSetup_wellformed", "every request is built from the leader's own log, numbered from PrevLogEntry + 1 (the hypothesis under which SV.ae_refines_core identifies the follower's merge with the cluster model's, for which RP.catchup_terminates is proved)"),
     ],
     "engines": [cluster("C12", 200, 5000), universe("C12", 3000, 60000)],
     "assumptions": [H3_NOTE, "the election-time bound is a statement about random timer draws and is measured (virtual time), not proved; convergence is checked 15 virtual seconds after the faults stop (replication back-off reaches 10.24 s)"],
